@@ -916,7 +916,7 @@ func checkPar(c ParCase) vk.Verdict {
 	return vk.Verdict{NonTrivial: len(c.Conns) >= 2, Classes: []string{fmt.Sprintf("parallel-conns:%d", len(c.Conns))}}
 }
 
-var propPar = vk.Register(&vk.Prop[ParCase]{Property: property, Name: "parallel", Check: checkPar, Quick: 400, Thorough: 4000,
+var propPar = vk.Register(&vk.Prop[ParCase]{Property: property, Name: "parallel", Check: checkPar, Quick: 800, Thorough: 6000,
 	Gen: func(t *rapid.T) ParCase {
 		c := ParCase{Config: rapid.IntRange(0, nConfigs-1).Draw(t, "config"), Helpers: genHelpers(t), Rounds: rapid.IntRange(1, 4).Draw(t, "rounds")}
 		n := rapid.IntRange(2, 8).Draw(t, "nconns")
